@@ -5,7 +5,8 @@ import ast
 
 from sa.core import Ob
 from sa.pm import AnalysisError, norm, body_nodes
-from sa import gi, df, ru
+from sa import gi, df, ru, sym
+from sa.pm import Undecided
 from sa.gi import IntSet, iv, GuardWalker, SymbolicAtomizer, FiniteAtomizer, FinSet, reach_sets
 from sa.interp import FuncVal, InstanceVal, Frame, Unknown
 
@@ -74,116 +75,46 @@ def c12_1(ctx):
         sv = cv.get("sized_values")
         ctx.check(sorted(sv or []) == list(range(1, 76)), "sized-values:%d" % op, VSS + ":1", "decoder of opcode %d does not treat sizes 1..75 as non-minimal" % op)
         prev_max = mx
-    # the comparison forms in the source
-    f = ctx.func(VSS, "ScriptStreamer.compile_push_data")
-    loops = [n for n in body_nodes(f.node) if isinstance(n, ast.For)]
-    if len(loops) != 1:
-        raise AnalysisError("compile_push_data: expected one loop over the variable encoders")
-    const = ru.const_resolver(ctx, f, {"max_size"})
-    w = GuardWalker(SymbolicAtomizer(ru.subject({"size", "len(data)"}, df.single_defs(f.node)), const))
-    w.block(loops[0].body, True)
-    brk = None
-    for n in body_nodes(loops[0]):
-        if isinstance(n, ast.If) and any(isinstance(s, ast.Break) for s in n.body):
-            brk = gi.sat_set(w.atomize(n.test), U, E)
-    ctx.check(brk == iv(None, ("s", 0)), "encoder-choice", ctx.where(f), "compile_push_data selects an opcode for sizes %s of its maximum; must be size <= max_size (a size equal to the maximum would get the next wider opcode, a non-minimal push)"
-              % (brk.fmt("max_size") if brk is not None else None), sample={"subject": "size", "selected_when": brk.fmt("max_size") if brk is not None else None})
-    txt = norm(f.node)
-    ctx.check(txt.index("if data in self.const_encoder:") < txt.index("if size in self.sized_encoder:") < txt.index("for max_size, opcode, enc_f in self.variable_encoder:"), "encoder-order", ctx.where(f), "compile_push_data does not try constants, then direct pushes, then PUSHDATA opcodes")
-    ctx.check("return bytes([opcode]) + enc_f(len(data)) + data" in txt, "encoder-layout", ctx.where(f), "compile_push_data does not emit opcode || length || data")
-    mv = ctx.func(VSS, "make_variable_handler")
-    inner = ctx.p.functions.get(mv.qualname + ".f")
-    const = ru.const_resolver(ctx, inner, {"min_size"})
-    w = GuardWalker(SymbolicAtomizer(ru.subject({"size"}), const))
-    w.run(inner.node.body)
-    nm = [(st, r) for st, r in w.visits if "non_minimal_data_handler(" in norm(st)]
-    ok = len(nm) == 1
-    if ok:
-        s = gi.sat_set(nm[0][1], U, E, assume={"size in sized_values": False, "verify_minimal_data": True, "size is None": False})
-        ok = s == iv(None, ("s", 0))
-        ops = gi.f_opaques(nm[0][1])
-        ok = ok and "verify_minimal_data" in ops and "size in sized_values" in ops
-    ctx.check(ok, "decoder-threshold-comparison", ctx.where(inner), "the PUSHDATA decoder does not flag exactly `size in sized_values or size <= min_size` under verify_minimal_data")
-    # the constructor chains min_size = previous max_size
-    init = ctx.func(VSS, "ScriptStreamer.__init__")
-    lp = [n for n in body_nodes(init.node) if isinstance(n, ast.For) and "opcode_variable_list" in norm(n.iter)]
-    ok = False
-    for l in lp:
-        for st in l.body:
-            if isinstance(st, ast.Assign) and norm(st.targets[0]) == "min_size":
-                ok = norm(st.value) == "max_size"
-    ctx.check(ok, "threshold-chaining", ctx.where(init), "ScriptStreamer.__init__ does not set each opcode's non-minimal threshold to the previous opcode's maximum size")
-    sv = ctx.func(VSS, "make_sized_handler")
-    inner = ctx.p.functions.get(sv.qualname + ".constant_size_opcode_handler")
-    ctx.check("if verify_minimal_data and data in const_values:" in norm(inner.node), "sized-non-minimal", ctx.where(inner), "a direct push of a value that has a constant opcode (OP_1..OP_16, OP_1NEGATE) is not flagged as non-minimal")
+    # the source forms behind the tables
+    _refcheck(ctx, VSS, "ScriptStreamer.compile_push_data", "ss_compile_push_data", "encoder-choice")
+    _refcheck(ctx, VSS, "make_variable_handler.f", "ss_variable_handler", "decoder-threshold-comparison")
+    _refcheck(ctx, VSS, "ScriptStreamer.__init__", "ss_init", "threshold-chaining")
+    _refcheck(ctx, VSS, "make_sized_handler.constant_size_opcode_handler", "ss_sized_handler", "sized-non-minimal")
+
+
+_REF = None
+
+
+def _ref():
+    global _REF
+    if _REF is None:
+        import os
+        _REF = ast.parse(open(os.path.join(os.path.dirname(os.path.dirname(os.path.abspath(__file__))), "spec", "ref_script.py")).read())
+    return _REF
+
+
+INTS = lambda t: t in ("size", "pc", "min_size", "max_size", "struct_size", "v", "i", "b", "t0", "opcode") or t.startswith(("len(", "int(", "ba[", "bytearray(s)[", "script[pc]"))
+
+
+def _refcheck(ctx, rel, dotted, refname, key, ints=None):
+    fi = ctx.p.functions.get(ctx.p.module(rel).name + "." + dotted) or ctx.func(rel, dotted)
+    return sym.against_reference(ctx, fi, _ref(), refname, key, ints or INTS)
 
 
 # ------------------------------------------------------------------ C12.2
 def c12_2(ctx):
-    for maker, name in (("make_sized_handler", "constant_size_opcode_handler"), ("make_variable_handler", "f")):
-        mk = ctx.func(VSS, maker)
-        inner = ctx.p.functions.get("%s.%s" % (mk.qualname, name))
-        if inner is None:
-            raise AnalysisError("%s.%s not found" % (maker, name))
-        const = ru.const_resolver(ctx, inner, {"size"})
-        w = GuardWalker(SymbolicAtomizer(ru.subject({"len(data)"}), const))
-        ex = w.run(inner.node.body)
-        none_ret = lambda e: e.kind == "return" and isinstance(e.value, ast.Tuple) and isinstance(e.value.elts[1], ast.Constant) and e.value.elts[1].value is None
-        gb = ru.guarded_by_subject(inner.node, w)
-        s = E
-        for e in ex:
-            if none_ret(e) and gb(e):
-                s = s | gi.sat_set(e.cond, U, E)
-        ctx.check(s == iv(None, ("s", -1)), "truncated-payload:%s" % maker, ctx.where(inner), "%s reports malformed data for payload lengths %s of the announced size; must be exactly len(data) < size" % (maker, s.fmt("size")),
-                  sample={"function": inner.qualname, "malformed_when": s.fmt("size")})
-    mv = ctx.func(VSS, "make_variable_handler")
-    inner = ctx.p.functions.get(mv.qualname + ".f")
-    w = GuardWalker(ru.opaque)
-    ex = w.run(inner.node.body)
-    ok = any(e.kind == "return" and isinstance(e.value, ast.Tuple) and isinstance(e.value.elts[1], ast.Constant) and e.value.elts[1].value is None and "size is None" in gi.f_opaques(e.cond) for e in ex)
-    ctx.check(ok, "truncated-length-field-observed", ctx.where(inner), "the PUSHDATA handler does not turn a failed length-field read (size None) into malformed data")
-    g = ctx.func(VSS, "ScriptStreamer.get_opcode")
-    ctx.check("is_ok = data is not None" in norm(g.node), "malformed-flag", ctx.where(g), "get_opcode does not report is_ok = (data is not None) for data opcodes")
+    _refcheck(ctx, VSS, "make_sized_handler.constant_size_opcode_handler", "ss_sized_handler", "truncated-payload:sized")
+    _refcheck(ctx, VSS, "make_variable_handler.f", "ss_variable_handler", "truncated-payload:variable")
+    _refcheck(ctx, VSS, "ScriptStreamer.get_opcode", "ss_get_opcode", "malformed-flag")
+    _refcheck(ctx, BSS, "make_opcode_variable_list.make_variable_decoder.decode_OP_PUSHDATA", "bss_decode_pushdata", "truncated-length-field")
     e = ctx.func("pycoin/vm/VM.py", "VM.eval_instruction")
-    w = GuardWalker(ru.opaque)
-    ex = w.run(e.node.body)
-    ok = any(x.kind == "raise" and gi.f_equiv(x.cond, ("not", ("op", "is_ok"))) for x in ex)
+    w = sym.walk(ctx, e)
+    rz = [x for x in w.exits if x.kind == "raise"]
+    okp = [o for x in rz for o in (gi.f_opaques(x.cond) if x.cond not in (True, False) else []) if "get_opcode(" in o and o.endswith("[3])")]
+    if not okp:
+        raise Undecided("eval_instruction does not test the is_ok flag of get_opcode directly")
+    ok = any(sym._equiv(x.cond, ("not", ("op", okp[0]))) for x in rz)
     ctx.check(ok, "malformed-raises", ctx.where(e), "eval_instruction does not raise exactly when the instruction is malformed")
-    # the length-field decoder: a short read must be detected for EVERY short length (0..struct_size-1 bytes)
-    mk = ctx.func(BSS, "make_opcode_variable_list")
-    dec = ctx.p.functions.get(mk.qualname + ".make_variable_decoder.decode_OP_PUSHDATA")
-    if dec is None:
-        raise AnalysisError("decode_OP_PUSHDATA not found")
-    tries = [n for n in body_nodes(dec.node) if isinstance(n, ast.Try)]
-    ok = False
-    how = None
-    for t in tries:
-        unp = [c for s in t.body for c in ast.walk(s) if isinstance(c, ast.Call) and norm(c.func) == "struct.unpack"]
-        if unp and norm(unp[0].args[0]) == "struct_data" and "pc:pc + struct_size" in norm(unp[0].args[1]):
-            hs = [h for h in t.handlers if h.type is None or {"Exception", "struct.error", "error"} & {df.dotted(x) for x in (h.type.elts if isinstance(h.type, ast.Tuple) else [h.type])}]
-            for h in hs:
-                for s in h.body:
-                    if isinstance(s, ast.Return) and isinstance(s.value, ast.Tuple) and isinstance(s.value.elts[0], ast.Constant) and s.value.elts[0].value is None:
-                        ok = True
-                        how = "struct.unpack of exactly struct_size bytes inside try; failure -> size None"
-    if not ok:
-        const = ru.const_resolver(ctx, dec, {"struct_size"})
-        lens = set()
-        for n in body_nodes(dec.node):
-            if isinstance(n, ast.Call) and norm(n.func) == "len":
-                lens.add(norm(n))
-        for lt in lens:
-            w = GuardWalker(SymbolicAtomizer(ru.subject({lt}), const))
-            ex = w.run(dec.node.body)
-            s = E
-            for e in ex:
-                if e.kind == "return" and isinstance(e.value, ast.Tuple) and isinstance(e.value.elts[0], ast.Constant) and e.value.elts[0].value is None:
-                    s = s | gi.sat_set(e.cond, U, E)
-            if iv(0, ("s", -1)).issubset(s):
-                ok = True
-                how = "explicit guard %s < struct_size -> size None" % lt
-    ctx.check(ok, "truncated-length-field", ctx.where(dec), "decode_OP_PUSHDATA does not report every short length field (0 .. struct_size-1 bytes present) as a failed read: a script ending inside PUSHDATA2/4's length field decodes as a push",
-              sample={"function": dec.qualname, "mechanism": how})
 
 
 # ------------------------------------------------------------------ C12.3
@@ -207,32 +138,29 @@ def c12_3(ctx):
     # disassembly of data opcodes: bracketed hex for every push that carries explicit data
     f = ctx.func(VST, "ScriptTools.disassemble_for_opcode_data")
     mv = it.module(f.module.name)
-    rets = df.returns_of(f.node)
-    w = None
-    dom = frozenset(range(256))
+    opp, datap = f.params()[1:3]
 
     def evalf(expr, v):
-        env = {"self": st, "opcode": v, "data": b"\x01\x02", "opcode_str": i2o.get(v, "???")}
+        env = {"self": st, opp: v, datap: b"\x01\x02"}
         val = it.eval(expr, Frame(mv, None, env))
         if isinstance(val, Unknown):
             raise ValueError("unknown")
         return bool(val)
-    fa = FiniteAtomizer(dom, evalf)
-    gw = GuardWalker(fa)
-    ex = gw.run(f.node.body)
-    hexed = set()
-    for e in ex:
-        if e.kind == "return" and isinstance(e.value, ast.BinOp) and "hexlify(data)" in norm(e.value):
-            hexed |= set(gi.sat_set(e.cond, fa.univ(), fa.empty()).m)
+    leaf = sym.finite_leaf(range(256), evalf)
+    w = sym.walk(ctx, f, leaf, feasible=lambda r: True)
+    fr = sym.exits_formula(w, lambda e: e.kind == "return" and e.value is not None and "hexlify(%s)" % datap in norm(e.value))
+    if fr is False:
+        raise Undecided("disassemble_for_opcode_data has no exit printing hexlify(data)")
+    if fr is not True and gi.f_opaques(fr):
+        raise Undecided("disassemble_for_opcode_data: guards %s are not decided by the opcode value" % gi.f_opaques(fr)[:3])
+    hexed = set(sym.may_set(fr, leaf.univ, leaf.empty).m)
     want = set(range(1, 79))
-    ctx.check(hexed == want, "disassemble-data-opcodes", ctx.where(f), "disassembly prints the pushed data for opcodes %s; every direct push and PUSHDATA1/2/4 (1..78) must print [hex], and nothing else (difference %s)"
+    ctx.check(hexed == want, "disassemble-data-opcodes", ctx.where(f), "disassembly prints the pushed data for opcodes %s; every direct push and PUSHDATA1/2/4 (1..78) must print [hex], and nothing else (differs on %s)"
               % (_rng(hexed), _rng(hexed ^ want)), sample={"function": f.qualname, "hex_form_for": _rng(hexed)})
-    ce = ctx.func(VST, "ScriptTools.compile_expression")
-    txt = norm(ce.node)
-    ctx.check("if (t[0], t[-1]) == ('[', ']'):" in txt and "return binascii.unhexlify(t[1:-1])" in txt and txt.index("('[', ']')") < txt.index("int(t)"), "bracket-hex-first", ctx.where(ce), "compile_expression does not decode the bracketed hex form before trying numbers")
-    c = ctx.func(VST, "ScriptTools.compile")
-    txt = norm(c.node)
-    ctx.check("self.write_push_data([v], f)" in txt and "if t_up in self.opcode_to_int:" in txt, "compile-dispatch", ctx.where(c), "compile does not emit opcodes by table and data through the minimal push encoder")
+    _refcheck(ctx, VST, "ScriptTools.compile_expression", "st_compile_expression", "bracket-hex-first")
+    _refcheck(ctx, VST, "ScriptTools.compile", "st_compile", "compile-dispatch")
+    _refcheck(ctx, VST, "ScriptTools.opcode_list", "st_opcode_list", "opcode-list")
+    _refcheck(ctx, VST, "ScriptTools.write_push_data", "st_write_push_data", "write-push-data")
 
 
 def _rng(s):
@@ -249,40 +177,14 @@ def _rng(s):
 
 # ------------------------------------------------------------------ C12.4
 def c12_4(ctx):
-    f = ctx.func(INT, "IntStreamer.int_from_script_bytes")
-    w = GuardWalker(ru.opaque)
-    ex = w.run(f.node.body)
-    rs = [e for e in ex if e.kind == "raise"]
-    want = gi.f_and(("not", ("op", "len(s) == 0")), ("op", "require_minimal"), ("op", "v == 0"), gi.f_or(("op", "len(ba) <= 1"), ("op", "ba[1] & 128 == 0")))
-    ok = len(rs) == 1 and gi.f_equiv(rs[0].cond, want)
-    ctx.check(ok, "minimality-rule", ctx.where(f), "int_from_script_bytes(require_minimal) does not reject exactly: top byte & 0x7f == 0 and (length <= 1 or next byte's high bit clear)",
-              sample={"raise_condition": repr(rs[0].cond) if rs else None})
-    defs = df.single_defs(f.node)
-    txt = norm(f.node)
-    ok = "ba.reverse()" in txt and "i = ba[0]" in txt and "v = i & 127" in txt and "is_negative = i & 128 > 0" in txt and "for b in ba[1:]:" in txt and "v <<= 8" in txt and "v += b" in txt and "v = -v" in txt
-    ctx.check(ok, "decode-sign-magnitude", ctx.where(f), "int_from_script_bytes is not little-endian sign-magnitude (sign = top bit of last byte)")
-    zero = [e for e in ex if e.kind == "return" and df.const_int(e.value) == 0]
-    ctx.check(len(zero) == 1 and gi.f_equiv(zero[0].cond, ("op", "len(s) == 0")), "decode-empty-is-zero", ctx.where(f), "the empty string does not decode to 0")
-    g = ctx.func(INT, "IntStreamer.int_to_script_bytes")
-    w = GuardWalker(SymbolicAtomizer(ru.subject({"ba[-1]"}), df.const_int))
-    ex = w.run(g.node.body)
-    app = [(st, r) for st, r in w.visits if isinstance(st, ast.Expr) and norm(st.value).startswith("ba.append(128 if is_negative else 0)")]
-    ok = len(app) == 1 and gi.sat_set(app[0][1], U, E) == iv(128, None)
-    ctx.check(ok, "encode-sign-byte", ctx.where(g), "int_to_script_bytes does not append a sign byte exactly when the top magnitude byte is >= 128 (0x80 for negatives, 0x00 otherwise)",
-              sample={"subject": "ba[-1]", "extra_byte_when": gi.sat_set(app[0][1], U, E).fmt() if app else None})
-    orr = [(st, r) for st, r in w.visits if isinstance(st, ast.AugAssign) and norm(st.target) == "ba[-1]" and isinstance(st.op, ast.BitOr) and df.const_int(st.value) == 0x80]
-    ok = len(orr) == 1 and gi.sat_set(orr[0][1], U, E, assume={"is_negative": True, "v < 0": True}) == iv(None, 127) and \
-        ({"is_negative", "v < 0"} & set(gi.f_opaques(orr[0][1]))) and gi.sat_set(orr[0][1], U, E, assume={"is_negative": False, "v < 0": False}).is_empty()
-    ctx.check(ok, "encode-sign-bit", ctx.where(g), "int_to_script_bytes does not set the sign bit in place exactly for negatives whose top byte is < 128")
-    txt = norm(g.node)
-    ok = "if v == 0:" in txt and "return b''" in txt and "while v >= 256:" in txt and "ba.append(v & 255)" in txt and "v >>= 8" in txt and "v = -v" in txt
-    ctx.check(ok, "encode-magnitude", ctx.where(g), "int_to_script_bytes is not little-endian magnitude with 0 -> empty")
+    _refcheck(ctx, INT, "IntStreamer.int_from_script_bytes", "is_int_from_script_bytes", "decode-sign-magnitude")
+    _refcheck(ctx, INT, "IntStreamer.int_to_script_bytes", "is_int_to_script_bytes", "encode-sign-magnitude")
 
 
 OBLIGATIONS = [
     Ob("C12.1", "push encoder ranges vs decoder non-minimal sets (constants, 1..75, PUSHDATA1/2/4)", c12_1, floor=90, engines="REG,GI,CE",
        breaks_if="data of exactly 75/76/255/256/65535/65536 bytes", exhaustive=True),
-    Ob("C12.2", "truncated payload or truncated length field => malformed", c12_2, floor=6, engines="GI,DF", breaks_if="scripts ending inside a push or inside a PUSHDATA length field"),
+    Ob("C12.2", "truncated payload or truncated length field => malformed", c12_2, floor=5, engines="SYM", breaks_if="scripts ending inside a push or inside a PUSHDATA length field"),
     Ob("C12.3", "opcode table functional; data pushes disassemble to bracketed hex for opcodes 1..78", c12_3, floor=200, engines="TB,GI(finite)", breaks_if="pushes > 65535 bytes; opcode aliases", exhaustive=True),
-    Ob("C12.4", "script-number codec decision tables (sign byte / sign bit / minimality)", c12_4, floor=6, engines="GI", breaks_if="magnitudes with top byte >= 128; negative zero; padded encodings"),
+    Ob("C12.4", "script-number codec decision tables (sign byte / sign bit / minimality)", c12_4, floor=2, engines="SYM", breaks_if="magnitudes with top byte >= 128; negative zero; padded encodings"),
 ]
